@@ -14,6 +14,7 @@ fn main() {
     match args[1].as_str() {
         "cursor-replay" => cursor::main(&args[2..]),
         "store-run" => store::main(&args[2..]),
+        "store-recover" => store::recover(&args[2..]),
         "log-replay" => log_replay::main(&args[2..]),
         "mani-run" => mani_run::run(&args[2..]),
         "mani-recover" => mani_run::recover(&args[2..]),
